@@ -42,6 +42,7 @@ structure Fut where
   ready : Bool := false
   value : Nat := 0
   waiters : List Nat := []          -- frames whose callback is registered
+  pend : List Nat := []             -- callbacks `set_value` still has to run
   deriving DecidableEq, Repr, Inhabited
 
 /-- what a running frame is about to do next inside an await (between two atomic points) -/
@@ -136,7 +137,8 @@ def awaitFuture (s : State) (a q : Nat) : Option State :=
   | .running _ =>
     if s.pc a ≠ .idle then none
     else if (s.fut q).ready then some { s with got := upd s.got a (some (s.fut q).value) }   -- no suspension
-    else some { s with fr := upd s.fr a .suspended, suspends := upd s.suspends a (s.suspends a + 1), pc := upd s.pc a (.fReg q) }
+    else some { s with fr := upd s.fr a .suspended, suspends := upd s.suspends a (s.suspends a + 1), pc := upd s.pc a (.fReg q),
+                       waitsOn := upd s.waitsOn a none }
   | _ => none
 
 /-- `await_suspend`: `_future.on_finish(cb)` -/
@@ -149,12 +151,18 @@ def registerCb (s : State) (a : Nat) : Option State :=
     else some { s1 with fut := upd s1.fut q { s1.fut q with waiters := a :: (s1.fut q).waiters } }
   | _ => none
 
-/-- `promise.set_value(v)`: publish, seal, run the registered callbacks -/
+/-- `promise.set_value(v)`: publish and seal; the registered callbacks are then run one by one -/
 def setFuture (s : State) (q v : Nat) : Option State :=
   if (s.fut q).ready then none else
-  let ws := (s.fut q).waiters
-  let s1 := { s with fut := upd s.fut q { ready := true, value := v, waiters := [] } }
-  some (ws.foldl (fun s a => ({ s with got := upd s.got a (some v) }).resumeVia a) s1)
+  some { s with fut := upd s.fut q { ready := true, value := v, waiters := [], pend := (s.fut q).waiters } }
+
+/-- `set_value` runs the next registered callback: `promise.resume(handle)` -/
+def runCb (s : State) (q : Nat) : Option State :=
+  match (s.fut q).pend with
+  | [] => none
+  | a :: rest =>
+    some ({ s with fut := upd s.fut q { s.fut q with pend := rest },
+                   got := upd s.got a (some (s.fut q).value) }.resumeVia a)
 
 inductive Step : State → State → Prop
   | submit (s : State) (h e : Nat) (s' : State) : submit s h e = some s' → Step s s'
@@ -165,6 +173,7 @@ inductive Step : State → State → Prop
   | awaitFuture (s : State) (a q : Nat) (s' : State) : awaitFuture s a q = some s' → Step s s'
   | registerCb (s : State) (a : Nat) (s' : State) : registerCb s a = some s' → Step s s'
   | setFuture (s : State) (q v : Nat) (s' : State) : setFuture s q v = some s' → Step s s'
+  | runCb (s : State) (q : Nat) (s' : State) : runCb s q = some s' → Step s s'
 
 def State.init : State := {}
 
@@ -207,6 +216,14 @@ def fireReg (s : State) (a : Nat) : State :=
   match registerCb s a with
   | some s' => s'
   | none => s
+
+/-- `set_value` runs all callbacks before it returns -/
+def drainCb (s : State) (q : Nat) : Nat → State
+  | 0 => s
+  | k + 1 =>
+    match runCb s q with
+    | some s' => drainCb s' q k
+    | none => s
 
 def stepObs (r : RState) (o : Obs) : Except String RState :=
   match o.kind, o.args with
@@ -267,7 +284,7 @@ def stepObs (r : RState) (o : Obs) : Except String RState :=
     | some q, some v =>
       -- registrations that are still pending in the model have happened or will see the sealed future
       match setFuture r.s q v with
-      | some s' => .ok { r with s := s' }
+      | some s' => .ok { r with s := drainCb s' q 16 }
       | none => .error "future set twice"
     | _, _ => .error "bad fset"
   | "ev", [k, i, e, v] =>
